@@ -236,10 +236,17 @@ type flowTracker struct {
 	tracer     tracing.ITracer
 	traces     chan tracing.ITrace
 	shutdownCh chan bool
+	stopped    chan struct{}
+	queries    chan cohortQuery
 	flows      map[id.Id]schema.Id
 	activityCh chan struct{}
-	lock       sync.RWMutex
 	element    *schema.InclusiveGateway
+}
+
+// cohortQuery asks the tracker's goroutine for the flows of the cohort of flowId
+type cohortQuery struct {
+	flowId id.Id
+	reply  chan []id.Id
 }
 
 func (tracker *flowTracker) activity() <-chan struct{} {
@@ -251,22 +258,24 @@ func newFlowTracker(tracer tracing.ITracer, element *schema.InclusiveGateway) *f
 		tracer:     tracer,
 		traces:     tracer.Subscribe(),
 		shutdownCh: make(chan bool),
+		stopped:    make(chan struct{}),
+		queries:    make(chan cohortQuery),
 		flows:      make(map[id.Id]schema.Id),
 		activityCh: make(chan struct{}, 1),
 		element:    element,
 	}
-	// Lock the tracker until it has caught up enough
-	// to see the incoming flow for the node
-	tracker.lock.Lock()
 	go tracker.run()
 	return &tracker
 }
 
+// run keeps the picture of the live flows. Only this goroutine touches it: the node asks
+// through a query, and a query is answered only after every trace that has already been
+// delivered to the subscription has been taken in. (The picture used to be shared under a
+// lock that the tracker took after it had received a trace: a node asking in between got a
+// picture that lacked the traces still waiting in the subscription, took a lone arrival
+// for the whole cohort and released the tokens of one activation one by one.)
 func (tracker *flowTracker) run() {
-	// As per note in the constructor, we're starting in a locked mode
-	locked := true
-	// Flag for notifying the node about activity
-	notify := false
+	defer close(tracker.stopped)
 	// Indicates whether the tracker has observed a flow
 	// that reaches the node that uses this tracker.
 	// This is important because if the node invokes
@@ -275,72 +284,72 @@ func (tracker *flowTracker) run() {
 	// there's no other flow to wait for, and will proceed (which
 	// is incorrect)
 	reachedNode := false
+	// queries that came before the tracker had seen a flow reaching the node
+	var waiting []cohortQuery
+	notify := false
+	// terminated: the tracer has terminated and closed the subscription; nothing more will come
+	terminated := func() {
+		for _, q := range waiting {
+			q.reply <- tracker.cohort(q.flowId)
+		}
+	}
 	for {
-		select {
-		case trace, ok := <-tracker.traces:
-			if !ok {
-				// the tracer has terminated and closed the subscription
-				if locked {
-					tracker.lock.Unlock()
+		// take in whatever has been delivered already
+		for drained := false; !drained; {
+			select {
+			case trace, ok := <-tracker.traces:
+				if !ok {
+					terminated()
+					return
 				}
-				return
+				var changed bool
+				changed, reachedNode = tracker.handleTrace(trace, reachedNode)
+				notify = notify || changed
+			default:
+				drained = true
 			}
-			locked, notify, reachedNode = tracker.handleTrace(locked, trace, notify, reachedNode)
-			// continue draining
-			continue
-		case <-tracker.shutdownCh:
-			if locked {
-				tracker.lock.Unlock()
-			}
-			// stop being a subscriber, otherwise the tracer eventually blocks on this
-			// channel that nobody reads any more
-			tracker.tracer.Unsubscribe(tracker.traces)
-			return
-		default:
-			// Nothing else is coming in, unlock if locked
-			if locked && reachedNode {
-				tracker.lock.Unlock()
-				if notify {
-					select {
-					case tracker.activityCh <- struct{}{}:
-					default:
-					}
-					notify = false
-				}
-				locked = false
-			}
-			// and now proceed with the second select to wait
-			// for an event without doing busy work (this `default` clause)
 		}
+		if reachedNode {
+			for _, q := range waiting {
+				q.reply <- tracker.cohort(q.flowId)
+			}
+			waiting = nil
+			if notify {
+				// tell the node about the activity
+				select {
+				case tracker.activityCh <- struct{}{}:
+				default:
+				}
+				notify = false
+			}
+		}
+		// and now wait for an event without doing busy work
 		select {
 		case trace, ok := <-tracker.traces:
 			if !ok {
-				if locked {
-					tracker.lock.Unlock()
-				}
+				terminated()
 				return
 			}
-			locked, notify, reachedNode = tracker.handleTrace(locked, trace, notify, reachedNode)
+			var changed bool
+			changed, reachedNode = tracker.handleTrace(trace, reachedNode)
+			notify = notify || changed
+		case q := <-tracker.queries:
+			// answered at the top of the loop, after the pending traces have been taken in
+			waiting = append(waiting, q)
 		case <-tracker.shutdownCh:
-			if locked {
-				tracker.lock.Unlock()
+			for _, q := range waiting {
+				q.reply <- nil
 			}
 			// stop being a subscriber, otherwise the tracer eventually blocks on this
 			// channel that nobody reads any more
 			tracker.tracer.Unsubscribe(tracker.traces)
 			return
 		}
-
 	}
 }
 
-func (tracker *flowTracker) handleTrace(locked bool, trace tracing.ITrace, notify bool, reachedNode bool) (bool, bool, bool) {
+func (tracker *flowTracker) handleTrace(trace tracing.ITrace, reachedNode bool) (changed bool, reached bool) {
 	trace = tracing.Unwrap(trace)
-	if !locked {
-		// Lock tracker records until messages are drained
-		tracker.lock.Lock()
-		locked = true
-	}
 	switch t := trace.(type) {
 	case FlowTrace:
 		for _, snapshot := range t.Flows {
@@ -360,12 +369,12 @@ func (tracker *flowTracker) handleTrace(locked bool, trace tracing.ITrace, notif
 				}
 			}
 		}
-		notify = true
+		changed = true
 	case TerminationTrace:
 		delete(tracker.flows, t.FlowId)
-		notify = true
+		changed = true
 	}
-	return locked, notify, reachedNode
+	return changed, reachedNode
 }
 
 func (tracker *flowTracker) shutdown() {
@@ -373,9 +382,21 @@ func (tracker *flowTracker) shutdown() {
 }
 
 func (tracker *flowTracker) activeFlowsInCohort(flowId id.Id) (result []id.Id) {
+	query := cohortQuery{flowId: flowId, reply: make(chan []id.Id, 1)}
+	select {
+	case tracker.queries <- query:
+		result = <-query.reply
+	case <-tracker.stopped:
+	}
+	if result == nil {
+		result = make([]id.Id, 0)
+	}
+	return
+}
+
+// cohort lists the flows that share their origin with flowId (tracker goroutine only)
+func (tracker *flowTracker) cohort(flowId id.Id) (result []id.Id) {
 	result = make([]id.Id, 0)
-	tracker.lock.RLock()
-	defer tracker.lock.RUnlock()
 	if location, ok := tracker.flows[flowId]; ok {
 		for k, v := range tracker.flows {
 			if v == location {
